@@ -92,6 +92,28 @@ declarations:
   - decl: int size() const
 - decl: void apply(int n = 1, int m = 2)
 """
+# classes as the declarations that carry the override: the flag on a class governs the class and everything in it
+FUNCS_CLS = """\
+library: Sel
+cxx_header: sel.hpp
+declarations:
+- decl: class alphaone
+  declarations:
+  - decl: alphaone()
+  - decl: int poke(int a)
+- decl: class betatwo
+  declarations:
+  - decl: betatwo()
+  - decl: void rename(const std::string &s)
+- decl: class gammathree
+  declarations:
+  - decl: gammathree()
+  - decl: double sum(double *v +rank(1), int n +implied(size(v)))
+- decl: class deltafour
+  declarations:
+  - decl: deltafour()
+  - decl: bool flip(bool flag)
+"""
 DESCS = {
     "functions": FUNCS,
     "chain": CHAIN,
@@ -247,11 +269,24 @@ def run(ctx):
     # ---- (b) per-declaration overrides
     names = ["alphaone", "betatwo", "gammathree"]
     for lang in LANGS:
-        for libdefault, nested in ((True, False), (False, False), (False, True), (True, True), (False, 2), (True, 2), (True, "flat"), (False, "flat"), (True, "flat2")):
+        for libdefault, nested in ((True, False), (False, False), (False, True), (True, True), (False, 2), (True, 2), (True, "flat"), (False, "flat"), (True, "flat2"), (True, "class"), (False, "class")):
             allflags = list(itertools.product(["inherit", True, False], repeat=3))
             if nested and quick:
                 allflags = allflags[::3]
             for flags in allflags:
+                if nested == "class":
+                    d = copy.deepcopy(yaml.safe_load(FUNCS_CLS))
+                    opts = d.setdefault("options", {})
+                    for l2 in LANGS:
+                        opts["wrap_" + l2] = True
+                    opts["wrap_" + lang] = libdefault
+                    if lang == "c":
+                        opts["wrap_fortran"] = False
+                    for fdecl, fl in zip(d["declarations"], flags):
+                        if fl != "inherit":
+                            fdecl.setdefault("options", {})["wrap_" + lang] = fl
+                    add(("decl", lang, libdefault, flags, False), d)
+                    continue
                 flat = nested in ("flat", "flat2")
                 if flat:
                     # the namespace folded into the parent Fortran module by an option on the namespace itself
